@@ -24,12 +24,12 @@ const maxSites = 48
 
 // SpinConfig is the scheduling part of a spin-back-end replay tuple.
 type SpinConfig struct {
-	Policy   string  `json:"policy"` // uniform | pct | sequential
-	Seed     uint64  `json:"seed"`
-	SwitchP  float64 `json:"switch_p,omitempty"`  // uniform: probability of a context switch at a yield point
-	PCTDepth int     `json:"pct_depth,omitempty"` // pct: number of priority change points
-	PCTSpan  int     `json:"pct_span,omitempty"`  // pct: change points are drawn in [0, span) yields
-	Choices  []uint32 `json:"choices,omitempty"`  // replay: k-th decision (0 = stay with the running task)
+	Policy   string   `json:"policy"` // uniform | pct | sequential
+	Seed     uint64   `json:"seed"`
+	SwitchP  float64  `json:"switch_p,omitempty"`  // uniform: probability of a context switch at a yield point
+	PCTDepth int      `json:"pct_depth,omitempty"` // pct: number of priority change points
+	PCTSpan  int      `json:"pct_span,omitempty"`  // pct: change points are drawn in [0, span) yields
+	Choices  []uint32 `json:"choices,omitempty"`   // replay: k-th decision (0 = stay with the running task)
 	// HotSites are yield sites (rare branches: cache misses, lock upgrades) at
 	// which a switch happens with probability HotP whatever the policy.
 	HotSites []string `json:"hot_sites,omitempty"`
@@ -296,14 +296,15 @@ func (s *Spin) Probe(name string) {
 }
 
 // The remaining seams are not used by code that runs under this back-end.
-func (s *Spin) Spawn(site string) simhook.Token           { return 0 }
-func (s *Spin) Started(site string, t simhook.Token)      {}
-func (s *Spin) Woken(site string, l sync.Locker)          {}
-func (s *Spin) Acquire(site string, res any)              {}
-func (s *Spin) Release(site string, res any)              {}
-func (s *Spin) Pick(site string, i, n int) int            { return i }
-func (s *Spin) At(site string, detail ...string)          {}
-func (s *Spin) RegisterCloser(res any, close func())      {}
+func (s *Spin) Spawn(site string) simhook.Token      { return 0 }
+func (s *Spin) Started(site string, t simhook.Token) {}
+func (s *Spin) Woken(site string, l sync.Locker)     {}
+func (s *Spin) Acquire(site string, res any)         {}
+func (s *Spin) Release(site string, res any)         {}
+func (s *Spin) Pick(site string, i, n int) int       { return i }
+func (s *Spin) At(site string, detail ...string)     {}
+func (s *Spin) RegisterCloser(res any, close func()) {}
+func (s *Spin) Label(name string)                    {}
 
 // SpinResult summarises one run of the spin back-end.
 type SpinResult struct {
